@@ -57,7 +57,7 @@ CHECKS.update({
    text="Reasm.tla: receive_packet / maybe_cull_segment transcribed; TLC explores every arrival order of the pieces of two datagrams through two fragmentation chains with "
         "duplicates and every expiry-callback timing (complete-iff-covered, exact bytes, no leak); the real Reassembly under random interleavings, duplicates, overlapping "
         "chains and expiry callbacks validated by the property-level TraceReasm.tla.",
-   note=FN_NOTE + " Known finding K5 (epoch reuse across buffers) is reported as KNOWN-FINDING.", technique="TLA+ model checking (TLC) + trace validation of real Reassembly executions"),
+   note=FN_NOTE, technique="TLA+ model checking (TLC) + trace validation of real Reassembly executions"),
  "C15": dict(level="model_checking", ref="DESIGN.md 7 C15",
    text="IpGen.tla: the range-set algorithm of ip_generator.rs transcribed; TLC checks in-pool / disjointness / exact free set / real exhaustion for every history of fetch, "
         "return and block over all pools of a 3-bit space; the real IpGenerator under random histories in 64-address windows at 0.0.0.0, 255.255.255.192 and other bases "
